@@ -308,3 +308,43 @@ def hits_immutable(ctx, rule='C05-R6'):
                           'hit may be created, lost or altered in time, ceilometer, type or height',
                           instance=f'{m.qname}: {e.text()[:50]} touches id columns only')
     ctx.floor(rule, 'writes to the chunk data outside _cleanup_pdf', n, 8)
+
+
+def ncomp_rewritten(ctx, rule='C05-R7'):
+    """find_layers may be run again on the same groups table (a permitted call): every path through its per-group
+    loop must write that group's ncomp (or leave by raising), else the count of the previous run survives next to
+    the layers of this one."""
+    fx = effects(ctx)
+    p = ctx.project
+    q = 'ampycloud.data.CeiloChunk.find_layers'
+    f = p.func(q, rule)
+    ctx.saw(f)
+    evs = fx.deep_events(q)
+
+    def is_ncomp_store(e):
+        if e.kind != 'store':
+            return False
+        t = e.target
+        col = t[3] if tag(t) == 'cell' else (t[2] if tag(t) == 'col' else None)
+        return T.root(t) == ('attr', ('p', 'self'), '_groups') and col in ('ncomp', C('ncomp'))
+    stores = [e for e in evs if is_ncomp_store(e) and e.loops]
+    ctx.floor(rule, 'stores of the ncomp cell in the per-group loop', len(stores), 2)
+    if not stores:
+        ctx.violation(rule, q, f.node.name, f.loc(), 'find_layers never writes the ncomp cell of a group inside its loop',
+                      instance='find_layers: ncomp written for every group visited')
+        return
+    lid = stores[0].loops[0]
+    inloop = [e for e in evs if e.loops and e.loops[0] == lid]
+    entry = inloop[0].guard
+    leaving = [e.guard for e in inloop if is_ncomp_store(e) or e.kind == 'raise']
+    covered = T.mk_or(leaving)
+    verdict = T.implies(entry, covered)
+    if verdict is None:
+        raise AnalysisError(rule, 'too many conditions in the per-group loop of find_layers to enumerate')
+    missing = T.mk_and([entry, T.mk_not(covered)]) if not verdict else None
+    ctx.check(verdict, rule, q, stores[0].node, stores[0].loc(),
+              'a path through the per-group loop leaves the ncomp cell of the group untouched (under '
+              f'{T.show(missing, maxlen=260) if missing is not None else ""}): when find_layers is run again on the same '
+              'chunk - a permitted call - the group keeps the sub-component count of the previous run while its hits are '
+              'layered afresh, so a group can report k components and own a different number of layers',
+              instance='find_layers: every path through the per-group loop writes ncomp (or raises)')
